@@ -23,7 +23,10 @@ func (s *PFCPSession) CreateQER(q qer) {
 func (s *PFCPSession) UpdateQER(q qer) error {
 	for idx, v := range s.qers {
 		if v.qerID == q.qerID {
+			// an update changes the parameters of the QER, not its level
+			q.qosLevel = v.qosLevel
 			s.qers[idx] = q
+
 			return nil
 		}
 	}
@@ -64,73 +67,88 @@ func findItemIndex(slice []uint32, val uint32) int {
 	return len(slice)
 }
 
-// MarkSessionQer : identify and Mark session QER with flag.
-func (s *PFCPSession) MarkSessionQer(qers []qer) {
+// MarkSessionQer identifies the session QER. A session has at most one; once chosen it is
+// kept, and QERs that are already installed are never re-labelled, so the choice is only
+// made among the QERs created by the current message ("created", already part of s.qers).
+// The chosen QER is marked in s.qers and its ID is moved to the end of every PDR's QER list.
+func (s *PFCPSession) MarkSessionQer(created []qer) {
 	// A session without PDRs has no QER lists to intersect.
 	if len(s.pdrs) == 0 {
 		return
 	}
 
-	sessQerIDList := make([]uint32, 0)
-	lastPdrIndex := len(s.pdrs) - 1
-	// create search list with first pdr's qerlist */
-	sessQerIDList = append(sessQerIDList, s.pdrs[lastPdrIndex].qerIDList...)
+	var (
+		sessQerID uint32
+		found     bool
+	)
 
-	// If PDRs have no QERs, then no marking for session qers is needed.
-	// If PDRS have one QER and all PDRs point to same QER, then consider it as application qer.
-	// If number of QERS is 2 or more, then search for session QER
-	if (len(sessQerIDList) < 1) || (len(qers) < 2) {
-		logger.PfcpLog.Infoln("need atleast 1 QER in PDR or 2 QERs in session to mark session QER")
-		return
+	for _, q := range s.qers {
+		if q.qosLevel == SessionQos {
+			sessQerID, found = q.qerID, true
+			break
+		}
 	}
 
-	// loop around all pdrs and find matching qers.
-	for i := range s.pdrs {
-		// match every qer in searchlist in pdr's qer list
-		sList := Intersect(sessQerIDList, s.pdrs[i].qerIDList)
-		if len(sList) == 0 {
+	if !found {
+		sessQerIDList := make([]uint32, 0)
+		lastPdrIndex := len(s.pdrs) - 1
+		// create search list with first pdr's qerlist */
+		sessQerIDList = append(sessQerIDList, s.pdrs[lastPdrIndex].qerIDList...)
+
+		// If PDRs have no QERs, then no marking for session qers is needed.
+		// If PDRS have one QER and all PDRs point to same QER, then consider it as application qer.
+		// If number of QERS is 2 or more, then search for session QER
+		if (len(sessQerIDList) < 1) || (len(s.qers) < 2) {
+			logger.PfcpLog.Infoln("need atleast 1 QER in PDR or 2 QERs in session to mark session QER")
 			return
 		}
 
-		sessQerIDList = sList
-	}
-
-	// Loop through qer list and mark qer which matches
-	//	  with entry in searchlist as sessionQos
-	//    if len(sessQerIDList) = 1 : use as matching session QER
-	//    if len(sessQerIDList) = 2 : loop and search for qer with
-	//                                bigger MBR and choose as session QER
-	//    if len(sessQerIDList) = 0 : no session QER
-	//    if len(sessQerIDList) = 3 : TBD (UE level QER handling).
-	//                                Currently handle same as len = 2
-	var (
-		sessionIdx int
-		sessionMbr uint64
-		sessQerID  uint32
-	)
-
-	if len(sessQerIDList) > 3 {
-		logger.PfcpLog.Warnln("qer id list size above 3 is not supported")
-	}
-
-	for idx, qer := range qers {
-		if contains(sessQerIDList, qer.qerID) {
-			if qer.ulGbr > 0 || qer.dlGbr > 0 {
-				logger.InitLog.Infoln("do not consider qer with non zero gbr value for session qer")
-				continue
+		// loop around all pdrs and find matching qers.
+		for i := range s.pdrs {
+			// match every qer in searchlist in pdr's qer list
+			sList := Intersect(sessQerIDList, s.pdrs[i].qerIDList)
+			if len(sList) == 0 {
+				return
 			}
 
-			if qer.ulMbr >= sessionMbr {
-				sessionIdx = idx
-				sessQerID = qer.qerID
-				sessionMbr = qer.ulMbr
+			sessQerIDList = sList
+		}
+
+		// Among the candidates that every PDR references choose the non-GBR QER
+		// with the biggest MBR as session QER.
+		var sessionMbr uint64
+
+		if len(sessQerIDList) > 3 {
+			logger.PfcpLog.Warnln("qer id list size above 3 is not supported")
+		}
+
+		for _, qer := range created {
+			if contains(sessQerIDList, qer.qerID) {
+				if qer.ulGbr > 0 || qer.dlGbr > 0 {
+					logger.InitLog.Infoln("do not consider qer with non zero gbr value for session qer")
+					continue
+				}
+
+				if !found || qer.ulMbr >= sessionMbr {
+					sessQerID = qer.qerID
+					sessionMbr = qer.ulMbr
+					found = true
+				}
+			}
+		}
+
+		if !found {
+			return
+		}
+
+		logger.PfcpLog.Infoln("session QER found. QER ID:", sessQerID)
+
+		for i := range s.qers {
+			if s.qers[i].qerID == sessQerID {
+				s.qers[i].qosLevel = SessionQos
 			}
 		}
 	}
-
-	logger.PfcpLog.Infoln("session QER found. QER ID:", sessQerID)
-
-	qers[sessionIdx].qosLevel = SessionQos
 
 	for i := range s.pdrs {
 		// remove common qerID from pdr's qer list
@@ -138,6 +156,19 @@ func (s *PFCPSession) MarkSessionQer(qers []qer) {
 		if idx != len(s.pdrs[i].qerIDList) {
 			s.pdrs[i].qerIDList = append(s.pdrs[i].qerIDList[:idx], s.pdrs[i].qerIDList[idx+1:]...)
 			s.pdrs[i].qerIDList = append(s.pdrs[i].qerIDList, sessQerID)
+		}
+	}
+}
+
+// syncQosLevel copies the QoS level decided for the stored QERs to the copies of the
+// current message, which are the ones sent to the datapath.
+func (s *PFCPSession) syncQosLevel(qers []qer) {
+	for i := range qers {
+		for _, stored := range s.qers {
+			if stored.qerID == qers[i].qerID {
+				qers[i].qosLevel = stored.qosLevel
+				break
+			}
 		}
 	}
 }
